@@ -187,6 +187,59 @@ def scen_hook_faults(ctx, exp, stages, name):
 
 
 # ---------------------------------------------------------------------------------------------
+# M1: a build tool is interrupted while the requesting interpreter lives on (action ToolFails of CompileCache.tla)
+
+def scen_tool_killed(ctx, exp, tool):
+    """SIGKILL of one tool process (the C compiler proper `cc1`, the assembler, the linker) below the requesting
+    interpreter -- what the OOM killer does.  The interrupted request may end with an exception; it must end (no hang),
+    and the next requests in fresh processes must succeed without manual cache clearing."""
+    cache = Path(ctx.scratch) / ('tk_' + tool)
+    cache.mkdir()
+    c = Child(cache, ['mass'], tag='t')
+    killed, t0 = None, time.time()
+    while killed is None and c.p.poll() is None and time.time() - t0 < TIMEOUT:
+        for d in os.listdir('/proc'):
+            if not d.isdigit():
+                continue
+            try:
+                st = open('/proc/%s/stat' % d).read()
+                comm = st[st.index('(') + 1:st.rindex(')')]
+                rest = st[st.rindex(')') + 2:].split()
+                if int(rest[3]) == c.p.pid and comm == tool:          # same session as the requesting interpreter
+                    os.kill(int(d), signal.SIGKILL)
+                    killed = int(d)
+                    break
+            except Exception:
+                pass
+        if killed is None:
+            time.sleep(0.01)
+    rc = c.wait()
+    if killed is None:
+        ctx.skip('no %s process seen below the requesting interpreter' % tool)
+        if rc != 0:
+            judge(ctx, exp, c, rc, 'clean-run-while-watching-for-%s' % tool, {})
+        return
+    if rc == 'timeout':
+        ctx.skip('timeout after %s was killed' % tool)
+        return
+    if rc == 'hung':
+        ctx.violation('request-hung after-tool-killed=%s' % tool, {'tool': tool})
+        return
+    snap = snapshot(cache)
+    sig = 'after-tool-killed=%s' % tool
+    detail = {'tool': tool, 'interrupted_request_returncode': rc, 'cache_after_interruption': snap,
+              'interrupted_request_stderr_tail': c.stderr[-600:].decode('utf8', 'replace')}
+    c1 = Child(cache, ['mass'], tag='r1')
+    ok = judge(ctx, exp, c1, c1.wait(), sig, detail)
+    if ok:
+        c2 = Child(cache, ['mass', 'stiff'], tag='r2')
+        judge(ctx, exp, c2, c2.wait(), sig + ' second-request', detail)
+    ctx.case(('toolkill', tool), nontrivial=True,
+             sample={'scenario': 'SIGKILL of a build tool, interpreter survives', 'tool': tool,
+                     'interrupted_request_returncode': rc, 'cache_after_interruption': snap[:6]} if tool == 'cc1' else None)
+
+
+# ---------------------------------------------------------------------------------------------
 # M1: crash while an artefact is being written (inotify-triggered), plus prefixes of that artefact
 
 def inotify_run(cache, forms, kill_suffix=None, kill_event='MODIFY'):
@@ -632,6 +685,8 @@ def run(ctx):
     for suf in ('.pyx', '.c', '.o', '.so'):
         futs.append(pool.submit(scen_write_kill, ctx, exp, suf))
     futs.append(pool.submit(scen_inplace_final, ctx, exp))
+    for tool in (('cc1', 'ld') if not ctx.thorough else ('cc1', 'as', 'collect2', 'ld')):
+        futs.append(pool.submit(scen_tool_killed, ctx, exp, tool))
     races = [('same4', [['mass']] * 4), ('mixed3', [['mass', 'mass2'], ['mass2'], ['mass3', 'mass']])]
     if ctx.thorough:
         races += [('same2', [['mass5']] * 2), ('same8', [['stiff']] * 8),
